@@ -148,8 +148,40 @@ class FunctionValues:
             return ("module", r[1])
         return r
 
+    def functools_member(self, e: ast.AST) -> Optional[str]:
+        if isinstance(e, ast.Attribute) and isinstance(e.value, ast.Name) and self._global(e.value.id) and \
+                (e.value.id == "functools" or self._lookup(e.value.id) == ("module", "functools")):
+            return e.attr
+        if isinstance(e, ast.Name) and self._global(e.id):
+            r = self._lookup(e.id)
+            if r and r[0] == "external" and r[1][0] == "functools":
+                return r[1][1]
+            if r is None and e.id in ("partial", "reduce"):
+                return e.id
+        return None
+
+    def itertools_member(self, e: ast.AST) -> Optional[str]:
+        if isinstance(e, ast.Attribute) and isinstance(e.value, ast.Name) and self._global(e.value.id) and \
+                (e.value.id == "itertools" or self._lookup(e.value.id) == ("module", "itertools")):
+            return e.attr
+        if isinstance(e, ast.Attribute) and e.attr == "from_iterable" and self.itertools_member(e.value) == "chain":
+            return "chain.from_iterable"
+        if isinstance(e, ast.Name) and self._global(e.id):
+            r = self._lookup(e.id)
+            if r and r[0] == "external" and r[1][0] == "itertools":
+                return r[1][1]
+            if r is None and e.id in ("chain", "starmap"):
+                return e.id
+        return None
+
+    def is_partial(self, e: ast.AST) -> bool:
+        return isinstance(e, ast.Call) and self.functools_member(e.func) == "partial" and bool(e.args) and \
+            not any(isinstance(a, ast.Starred) for a in e.args) and not any(k.arg is None for k in e.keywords)
+
     def is_value(self, e: ast.AST) -> bool:
         if isinstance(e, ast.Lambda):
+            return True
+        if self.is_partial(e):
             return True
         m = self.operator_member(e)
         if m is not None:
@@ -172,6 +204,19 @@ class FunctionValues:
         return isinstance(a, ast.Constant) or _is_pure_path(a)
 
     def apply(self, fv: ast.AST, args: List[ast.AST], keywords: List[ast.keyword]) -> Optional[ast.AST]:
+        if self.is_partial(fv):
+            # partial(F, a, k=v)(b) is F(a, b, k=v)
+            if any(isinstance(a, ast.Starred) for a in args) or any(k.arg is None for k in keywords):
+                return None
+            later = {k.arg for k in keywords}
+            kws = [copy.deepcopy(k) for k in fv.keywords if k.arg not in later] + [copy.deepcopy(k) for k in keywords]
+            inner = copy.deepcopy(fv.args[0])
+            new_args = [copy.deepcopy(a) for a in fv.args[1:]] + list(args)
+            if self.is_value(inner):
+                got = self.apply(inner, new_args, kws)
+                if got is not None:
+                    return got
+            return ast.Call(func=inner, args=new_args, keywords=kws)
         if keywords or any(isinstance(a, ast.Starred) for a in args):
             return None
         if isinstance(fv, ast.Lambda):
@@ -235,6 +280,36 @@ class FunctionValues:
                 return ast.Call(func=ast.Attribute(value=x, attr=fv.args[0].value, ctx=ast.Load()), args=copy.deepcopy(fv.args[1:]),
                                 keywords=copy.deepcopy(fv.keywords))
         return None
+
+
+def _own_jumps_to_blocks(body: List[ast.stmt], continue_label: str, break_label: str) -> List[ast.stmt]:
+    """`continue` / `break` that belong to the loop whose body this is become jumps to the end of the given blocks"""
+    def rec(stmts):
+        out = []
+        for s_ in stmts:
+            if isinstance(s_, ast.Continue):
+                j = InlineJump()
+                j.label = continue_label
+                out.append(ast.copy_location(j, s_))
+                continue
+            if isinstance(s_, ast.Break):
+                j = InlineJump()
+                j.label = break_label
+                out.append(ast.copy_location(j, s_))
+                continue
+            if isinstance(s_, (ast.For, ast.While, ast.AsyncFor)):
+                s_.orelse = rec(s_.orelse)      # the body's own jumps belong to the inner loop
+                out.append(s_)
+                continue
+            for fld in ("body", "orelse", "finalbody"):
+                sub = getattr(s_, fld, None)
+                if isinstance(sub, list) and sub and isinstance(sub[0], ast.stmt) and not isinstance(s_, (ast.FunctionDef, ast.AsyncFunctionDef, ast.ClassDef)):
+                    setattr(s_, fld, rec(sub))
+            for h in getattr(s_, "handlers", []) or []:
+                h.body = rec(h.body)
+            out.append(s_)
+        return out
+    return rec(body)
 
 
 _FRESH_EMPTY = ("set", "list", "dict", "frozenset", "tuple")
@@ -316,6 +391,12 @@ class _Desugar(ast.NodeTransformer):
         """`map(F, IT)` -> `(F(v) for v in IT)`, `filter(F, IT)` -> `(v for v in IT if F(v))` (one iterable; F a name, attribute or
         one-parameter lambda, which is applied in place)"""
         self.generic_visit(c)
+        unrolled = self._any_all_over_table(c)
+        if unrolled is not None:
+            return unrolled
+        simple = self._simple_call_forms(c)
+        if simple is not None:
+            return simple
         if self.fv.is_value(c.func):
             got = self.fv.apply(c.func, list(c.args), list(c.keywords))
             if got is not None:
@@ -380,6 +461,19 @@ class _Desugar(ast.NodeTransformer):
             nx = self._next(st.targets[0], st.value, st)
             if nx is not None:
                 return nx
+            rd = self._reduce(st.targets[0], st.value, st)
+            if rd is not None:
+                return rd
+        return st
+
+    def visit_Return(self, st):
+        self.generic_visit(st)
+        if st.value is not None and isinstance(st.value, ast.Call) and self.fv.functools_member(st.value.func) == "reduce":
+            tmp = ast.Name(id=f"__acc__c{next(_counter)}", ctx=ast.Store())
+            rd = self._reduce(tmp, st.value, st)
+            if rd is not None:
+                ret = ast.copy_location(ast.Return(value=ast.Name(id=tmp.id, ctx=ast.Load())), st)
+                return rd + [ast.fix_missing_locations(ret)]
         return st
 
     def visit_AnnAssign(self, st):
@@ -417,46 +511,310 @@ class _Desugar(ast.NodeTransformer):
         loop = ast.For(target=comp.target, iter=comp.iter, body=body, orelse=[])
         return self._fix([init, loop], st)
 
+    # ------------------------------------------------------------------ static tables
+    def _class_of(self) -> Optional[str]:
+        return self.fv.f.cls if self.fv.f is not None else None
+
+    def _static_table(self, e: ast.AST, depth: int = 0) -> Optional[List[ast.AST]]:
+        """the element expressions of an iterable whose content is fixed by the source: a tuple / list display, a name bound once to
+        one at module level, a class-level attribute (`self.T`, `cls.T`, `Cls.T`), `enumerate` / `zip` / `reversed` / `tuple` / `list` of
+        such, `.items()` / `.keys()` / `.values()` of a dict display; None otherwise"""
+        if depth > 4:
+            return None
+        fv = self.fv
+        if isinstance(e, (ast.Tuple, ast.List)):
+            if any(isinstance(x, ast.Starred) for x in e.elts):
+                return None
+            return list(e.elts)
+        if isinstance(e, ast.Name) and fv._global(e.id) and fv.repo is not None and fv.f is not None:
+            try:
+                node = fv.repo.const_node(fv.f.mod.name, e.id)
+            except Exception:
+                node = None
+            return self._static_table(node, depth + 1) if isinstance(node, (ast.Tuple, ast.List, ast.Dict, ast.Call)) else None
+        if isinstance(e, ast.Attribute) and isinstance(e.value, ast.Name) and fv.repo is not None and fv.f is not None:
+            cls = None
+            if fv.f.cls and e.value.id in (fv.f.self_name, "cls"):
+                cls = fv.f.cls
+            elif e.value.id in fv.repo.classes and fv._global(e.value.id):
+                cls = e.value.id
+            if cls:
+                node = self._class_attr(cls, e.attr)
+                if node is not None:
+                    self._table_class = cls
+                    return self._static_table(node, depth + 1)
+            return None
+        if isinstance(e, ast.Call) and isinstance(e.func, ast.Name) and fv._global(e.func.id) and not e.keywords:
+            if e.func.id in ("tuple", "list", "iter") and len(e.args) == 1:
+                return self._static_table(e.args[0], depth + 1)
+            if e.func.id == "reversed" and len(e.args) == 1:
+                t = self._static_table(e.args[0], depth + 1)
+                return None if t is None else list(reversed(t))
+            if e.func.id == "enumerate" and len(e.args) in (1, 2):
+                t = self._static_table(e.args[0], depth + 1)
+                start = 0
+                if len(e.args) == 2:
+                    if not (isinstance(e.args[1], ast.Constant) and isinstance(e.args[1].value, int)):
+                        return None
+                    start = e.args[1].value
+                return None if t is None else [ast.Tuple(elts=[ast.Constant(value=start + i), x], ctx=ast.Load()) for i, x in enumerate(t)]
+            if e.func.id == "zip" and e.args:
+                ts = [self._static_table(a, depth + 1) for a in e.args]
+                if any(t is None for t in ts):
+                    return None
+                n = min(len(t) for t in ts)
+                return [ast.Tuple(elts=[t[i] for t in ts], ctx=ast.Load()) for i in range(n)]
+        if isinstance(e, ast.Call) and isinstance(e.func, ast.Attribute) and e.func.attr in ("items", "keys", "values") and not e.args and not e.keywords:
+            d = e.func.value
+            if isinstance(d, ast.Name) and fv._global(d.id) and fv.repo is not None and fv.f is not None:
+                try:
+                    d = fv.repo.const_node(fv.f.mod.name, d.id)
+                except Exception:
+                    d = None
+            elif isinstance(d, ast.Attribute):
+                saved = getattr(self, "_table_class", None)
+                got = None
+                if isinstance(d.value, ast.Name) and fv.f is not None and fv.f.cls and d.value.id in (fv.f.self_name, "cls"):
+                    got = self._class_attr(fv.f.cls, d.attr)
+                    if got is not None:
+                        self._table_class = fv.f.cls
+                d = got
+            if isinstance(d, ast.Dict) and all(k is not None for k in d.keys):
+                if e.func.attr == "keys":
+                    return list(d.keys)
+                if e.func.attr == "values":
+                    return list(d.values)
+                return [ast.Tuple(elts=[k, v], ctx=ast.Load()) for k, v in zip(d.keys, d.values)]
+        if isinstance(e, ast.Dict) and all(k is not None for k in e.keys):
+            return list(e.keys)
+        return None
+
+    def _class_attr(self, cls: str, attr: str) -> Optional[ast.AST]:
+        repo = self.fv.repo
+        for c in repo.mro(cls):
+            hits = []
+            for b in repo.classes[c].node.body:
+                if isinstance(b, ast.Assign) and any(isinstance(t, ast.Name) and t.id == attr for t in b.targets):
+                    hits.append(b.value)
+                elif isinstance(b, ast.AnnAssign) and isinstance(b.target, ast.Name) and b.target.id == attr and b.value is not None:
+                    hits.append(b.value)
+            if hits:
+                # must not be rebound through self / the class anywhere in the repository's own code of that class
+                for fn in repo.classes[c].methods.values():
+                    for x in ast.walk(fn):
+                        if isinstance(x, ast.Attribute) and x.attr == attr and not isinstance(x.ctx, ast.Load):
+                            return None
+                return hits[0] if len(hits) == 1 else None
+        return None
+
+    def _stable_element(self, e: ast.AST) -> bool:
+        """an element that means the same wherever it is written in the function: constants, names the function never binds, attribute
+        paths on those, tuples of such, function-value constructors"""
+        if isinstance(e, ast.Constant) or isinstance(e, ast.Lambda):
+            return True
+        if isinstance(e, ast.Name):
+            return self.local_names is not None and e.id not in self.local_names
+        if isinstance(e, ast.Attribute):
+            return self._stable_element(e.value)
+        if isinstance(e, (ast.Tuple, ast.List)):
+            return all(self._stable_element(x) for x in e.elts)
+        if isinstance(e, ast.Call):
+            return self._stable_element(e.func) and all(self._stable_element(a) for a in e.args) and all(self._stable_element(k.value) for k in e.keywords)
+        if isinstance(e, ast.JoinedStr):
+            return all(isinstance(v, ast.Constant) for v in e.values)
+        return False
+
+    def _class_scoped(self, e: ast.AST, cls: Optional[str]) -> ast.AST:
+        """a bare name inside a class-level table that names a method of the class is `Cls.method` for code outside the class body"""
+        if cls is None or self.fv.repo is None:
+            return e
+        repo = self.fv.repo
+
+        class R(ast.NodeTransformer):
+            def visit_Name(self_, n):
+                if isinstance(n.ctx, ast.Load) and any(n.id in repo.classes[c].methods for c in repo.mro(cls)):
+                    return ast.copy_location(ast.Attribute(value=ast.Name(id=cls, ctx=ast.Load()), attr=n.id, ctx=ast.Load()), n)
+                return n
+        return R().visit(copy.deepcopy(e))
+
+    def _bind(self, target: ast.AST, elem: ast.AST) -> Optional[Dict[str, ast.AST]]:
+        if isinstance(target, ast.Name):
+            return {target.id: elem}
+        if isinstance(target, (ast.Tuple, ast.List)) and isinstance(elem, (ast.Tuple, ast.List)) and len(target.elts) == len(elem.elts) \
+                and not any(isinstance(x, ast.Starred) for x in list(target.elts) + list(elem.elts)):
+            out: Dict[str, ast.AST] = {}
+            for t, v in zip(target.elts, elem.elts):
+                sub = self._bind(t, v)
+                if sub is None:
+                    return None
+                out.update(sub)
+            return out
+        return None
+
+    MAX_TABLE = 12
+
+    def _table_for(self, target: ast.AST, it: ast.AST, body_nodes: List[ast.AST]) -> Optional[List[Dict[str, ast.AST]]]:
+        """per element of a static table the substitution of the loop variables; None when the loop is not over a static table or the
+        variables are rebound in the body"""
+        self._table_class = None
+        table = self._static_table(it)
+        if table is None or not (1 <= len(table) <= self.MAX_TABLE):
+            return None
+        cls = self._table_class
+        table = [self._class_scoped(x, cls) for x in table]
+        if not all(self._stable_element(x) for x in table):
+            return None
+        binds = [self._bind(target, x) for x in table]
+        if any(b is None for b in binds):
+            return None
+        names = set(binds[0])
+        for root in body_nodes:
+            for x in ast.walk(root):
+                if isinstance(x, ast.Name) and x.id in names and not isinstance(x.ctx, ast.Load):
+                    return None
+                if isinstance(x, (ast.FunctionDef, ast.AsyncFunctionDef, ast.Global, ast.Nonlocal)):
+                    return None
+        return binds
+
+    @staticmethod
+    def _subst_many(node: ast.AST, mapping: Dict[str, ast.AST]) -> ast.AST:
+        class S(ast.NodeTransformer):
+            def visit_Name(self_, n):
+                if n.id in mapping and isinstance(n.ctx, ast.Load):
+                    return ast.copy_location(copy.deepcopy(mapping[n.id]), n)
+                return n
+        return S().visit(copy.deepcopy(node))
+
     def visit_For(self, n):
+        """a loop over a static table is written out: one copy of the body per element with the loop variables replaced; `continue`
+        ends the copy, `break` ends the whole sequence, the `else` part runs when no copy broke out"""
         self.generic_visit(n)
-        it = n.iter
-        if n.orelse or not isinstance(n.target, ast.Name) or not isinstance(it, (ast.Tuple, ast.List)) or not (1 <= len(it.elts) <= 4):
+        binds = self._table_for(n.target, n.iter, n.body)
+        if binds is None:
             return n
-        if not all(isinstance(e, ast.Constant) or (isinstance(e, ast.Name) and self.local_names is not None and e.id not in self.local_names)
-                   for e in it.elts):
-            return n        # literal constants or names the function never binds (module-level values)
-        name = n.target.id
-
-        def own_jumps(stmts) -> bool:
-            for s_ in stmts:
-                if isinstance(s_, (ast.Break, ast.Continue)):
-                    return True
-                if isinstance(s_, (ast.For, ast.While, ast.AsyncFor)):
-                    if own_jumps(s_.orelse):
-                        return True
-                    continue
-                for fld in ("body", "orelse", "finalbody"):
-                    if own_jumps(getattr(s_, fld, []) or []):
-                        return True
-                for h in getattr(s_, "handlers", []) or []:
-                    if own_jumps(h.body):
-                        return True
-            return False
-
-        if own_jumps(n.body):
-            return n
-        for x in ast.walk(ast.Module(body=n.body, type_ignores=[])):
-            if isinstance(x, ast.Name) and x.id == name and not isinstance(x.ctx, ast.Load):
-                return n
-            if isinstance(x, (ast.FunctionDef, ast.AsyncFunctionDef, ast.Lambda, ast.Global, ast.Nonlocal)):
-                return n
-        out = []
-        for c in it.elts:
+        k = next(_counter)
+        outer = f"t{k}:loop"
+        copies: List[ast.stmt] = []
+        for idx, mapping in enumerate(binds):
+            inner = f"t{k}:{idx}"
+            body: List[ast.stmt] = []
+            for name, val in mapping.items():       # the loop variables keep their last values
+                body.append(ast.Assign(targets=[ast.Name(id=name, ctx=ast.Store())], value=copy.deepcopy(val), lineno=n.lineno))
             for s_ in n.body:
-                out.append(_Subst(name, c).visit(copy.deepcopy(s_)))
-        # the loop variable keeps its last value
-        out.append(ast.Assign(targets=[ast.Name(id=name, ctx=ast.Store())], value=copy.deepcopy(it.elts[-1]), lineno=n.lineno))
-        return self._fix(out, n)
+                body.append(self._subst_many(s_, mapping))
+            body = _own_jumps_to_blocks(body, inner, outer)
+            blk = InlineBlock(test=ast.Constant(value=True), body=body or [ast.Pass()], orelse=[])
+            blk.label = inner
+            copies.append(blk)
+        whole = InlineBlock(test=ast.Constant(value=True), body=copies + list(n.orelse), orelse=[])
+        whole.label = outer
+        return self._fix([whole], n)
+
+    def _simple_call_forms(self, c: ast.Call) -> Optional[ast.AST]:
+        """getattr(x, "name") -> x.name;  Cls.method(self, a) -> self.method(a);  chain.from_iterable(X) -> (y for x in X for y in x);
+        chain(a, b) -> [*a, *b];  starmap(F, IT) -> (F(*t) for t in IT)"""
+        fv = self.fv
+        new: Optional[ast.AST] = None
+        if isinstance(c.func, ast.Name) and c.func.id == "getattr" and fv._global("getattr") and len(c.args) == 2 and not c.keywords \
+                and isinstance(c.args[1], ast.Constant) and isinstance(c.args[1].value, str) and c.args[1].value.isidentifier():
+            new = ast.Attribute(value=c.args[0], attr=c.args[1].value, ctx=ast.Load())
+        elif isinstance(c.func, ast.Attribute) and isinstance(c.func.value, ast.Name) and fv.repo is not None and fv.f is not None and fv.f.cls \
+                and fv._global(c.func.value.id) and c.func.value.id in fv.repo.classes and c.args and isinstance(c.args[0], ast.Name) \
+                and c.args[0].id == fv.f.self_name and c.func.value.id in fv.repo.mro(fv.f.cls):
+            ci = None
+            for k in fv.repo.mro(c.func.value.id):
+                if c.func.attr in fv.repo.classes[k].methods:
+                    ci = fv.repo.classes[k]
+                    break
+            if ci is not None and c.func.attr not in ci.static and not any(
+                    isinstance(d, ast.Name) and d.id == "classmethod" for d in ci.methods[c.func.attr].decorator_list):
+                new = ast.Call(func=ast.Attribute(value=c.args[0], attr=c.func.attr, ctx=ast.Load()), args=list(c.args[1:]), keywords=list(c.keywords))
+        else:
+            it = fv.itertools_member(c.func)
+            if it == "chain.from_iterable" and len(c.args) == 1 and not c.keywords:
+                k = next(_counter)
+                outer, inner = f"group__c{k}", f"item__c{k}"
+                new = ast.GeneratorExp(elt=ast.Name(id=inner, ctx=ast.Load()), generators=[
+                    ast.comprehension(target=ast.Name(id=outer, ctx=ast.Store()), iter=c.args[0], ifs=[], is_async=0),
+                    ast.comprehension(target=ast.Name(id=inner, ctx=ast.Store()), iter=ast.Name(id=outer, ctx=ast.Load()), ifs=[], is_async=0)])
+            elif it == "chain" and c.args and not c.keywords and not any(isinstance(a, ast.Starred) for a in c.args):
+                new = ast.List(elts=[ast.Starred(value=a, ctx=ast.Load()) for a in c.args], ctx=ast.Load())
+            elif it == "starmap" and len(c.args) == 2 and not c.keywords:
+                k = next(_counter)
+                var = f"args__c{k}"
+                fn_ = c.args[0]
+                new = ast.GeneratorExp(elt=ast.Call(func=fn_, args=[ast.Starred(value=ast.Name(id=var, ctx=ast.Load()), ctx=ast.Load())], keywords=[]),
+                                       generators=[ast.comprehension(target=ast.Name(id=var, ctx=ast.Store()), iter=c.args[1], ifs=[], is_async=0)])
+        if new is None:
+            return None
+        ast.copy_location(new, c)
+        return ast.fix_missing_locations(new)
+
+    def _reduce(self, target: ast.Name, v: ast.AST, st) -> Optional[List[ast.stmt]]:
+        """x = reduce(F, IT, init)  ->  x = init; for item in IT: x = F(x, item)"""
+        if not (isinstance(v, ast.Call) and self.fv.functools_member(v.func) == "reduce" and len(v.args) == 3 and not v.keywords
+                and not any(isinstance(a, ast.Starred) for a in v.args)):
+            return None
+        fn_, it, init = v.args
+        if any(isinstance(x, ast.Name) and x.id == target.id for x in ast.walk(v)):
+            return None
+        k = next(_counter)
+        var = f"item__c{k}"
+        step_args = [ast.Name(id=target.id, ctx=ast.Load()), ast.Name(id=var, ctx=ast.Load())]
+        applied = self.fv.apply(fn_, step_args, []) if self.fv.is_value(fn_) else None
+        if applied is None:
+            if not isinstance(fn_, (ast.Name, ast.Attribute)):
+                return None
+            applied = ast.Call(func=fn_, args=step_args, keywords=[])
+        first = ast.Assign(targets=[ast.Name(id=target.id, ctx=ast.Store())], value=init, lineno=st.lineno)
+        step = ast.Assign(targets=[ast.Name(id=target.id, ctx=ast.Store())], value=applied, lineno=st.lineno)
+        loop = ast.For(target=ast.Name(id=var, ctx=ast.Store()), iter=it, body=[step], orelse=[])
+        out = self._fix([first, loop], st)
+        return [y for x in out for y in (lambda r_: r_ if isinstance(r_, list) else [r_])(self.visit(x))]
+
+    def _any_all_over_table(self, c: ast.Call) -> Optional[ast.AST]:
+        """`any(E for v in TABLE [if C])` -> `(C1 and E1) or (C2 and E2) ..`, `all(..)` -> `((not C1) or E1) and ..` over a static table
+        (same evaluation order and short-circuit)"""
+        if not (isinstance(c.func, ast.Name) and c.func.id in ("any", "all") and len(c.args) == 1 and not c.keywords
+                and isinstance(c.args[0], (ast.GeneratorExp, ast.ListComp)) and len(c.args[0].generators) == 1):
+            return None
+        if self.local_names is not None and c.func.id in self.local_names:
+            return None
+        comp = c.args[0]
+        gen = comp.generators[0]
+        if gen.is_async or any(isinstance(x, (ast.NamedExpr, ast.Yield, ast.YieldFrom, ast.Await)) for x in ast.walk(comp)):
+            return None
+        binds = self._table_for(gen.target, gen.iter, [comp.elt] + list(gen.ifs))
+        if binds is None:
+            return None
+        is_any = c.func.id == "any"
+        terms: List[ast.expr] = []
+        for mapping in binds:
+            conds = [self._subst_many(x, mapping) for x in gen.ifs]
+            elt = self._subst_many(comp.elt, mapping)
+            if is_any:
+                terms.append(ast.BoolOp(op=ast.And(), values=conds + [elt]) if conds else elt)
+            else:
+                neg = [ast.UnaryOp(op=ast.Not(), operand=x) for x in conds]
+                terms.append(ast.BoolOp(op=ast.Or(), values=neg + [elt]) if neg else elt)
+        new = terms[0] if len(terms) == 1 else ast.BoolOp(op=ast.Or() if is_any else ast.And(), values=terms)
+        # any / all return a bool
+        new = ast.Call(func=ast.Name(id="bool", ctx=ast.Load()), args=[new], keywords=[])
+        ast.copy_location(new, c)
+        return ast.fix_missing_locations(new)
+
+    def visit_ListComp(self, n):
+        return self._unroll_comp(n)
+
+    def visit_SetComp(self, n):
+        return self._unroll_comp(n)
+
+    def visit_GeneratorExp(self, n):
+        return self._unroll_comp(n)
+
+    def _unroll_comp(self, n):
+        self.generic_visit(n)
+        return n
 
 
 class _BoolOpToIf(ast.NodeTransformer):
@@ -552,6 +910,23 @@ class _TableDispatch(ast.NodeTransformer):
     visit_AsyncFunctionDef = visit_Lambda = visit_FunctionDef
 
     def _table(self, e: ast.AST) -> Optional[ast.Dict]:
+        if isinstance(e, ast.Attribute) and isinstance(e.value, ast.Name) and self.repo is not None and self.f is not None:
+            # a class-level table: self.T / cls.T / Cls.T (bare method names in it are `Cls.method` outside the class body)
+            cls = None
+            if self.f.cls and e.value.id in (self.f.self_name, "cls"):
+                cls = self.f.cls
+            elif e.value.id in self.repo.classes and e.value.id not in self.local:
+                cls = e.value.id
+            if cls is None:
+                return None
+            helper = _Desugar(None, self.repo, self.f)
+            node = helper._class_attr(cls, e.attr)
+            if not isinstance(node, ast.Dict) or not node.keys or any(k is None or not isinstance(k, ast.Constant) for k in node.keys):
+                return None
+            node = helper._class_scoped(node, cls)
+            if not all(isinstance(v, (ast.Attribute, ast.Name)) for v in node.values):
+                return None
+            return node
         if not isinstance(e, ast.Name):
             return None
         d = None
@@ -601,7 +976,37 @@ class _TableDispatch(ast.NodeTransformer):
     def visit_Expr(self, st):
         return self._rewrite(st, st.value, lambda c: ast.copy_location(ast.Expr(value=c), st))
 
+    def _lookup(self, v: ast.AST):
+        """(table, key, default or None, has_default) when v is TABLE[key] / TABLE.get(key) / TABLE.get(key, default)"""
+        if isinstance(v, ast.Subscript) and not isinstance(v.slice, ast.Slice) and isinstance(v.ctx, ast.Load):
+            d = self._table(v.value)
+            if d is not None and isinstance(v.slice, (ast.Name, ast.Attribute, ast.Subscript, ast.Constant)):
+                return d, v.slice, None, False
+        if isinstance(v, ast.Call) and isinstance(v.func, ast.Attribute) and v.func.attr == "get" and len(v.args) in (1, 2) and not v.keywords:
+            d = self._table(v.func.value)
+            if d is not None and isinstance(v.args[0], (ast.Name, ast.Attribute, ast.Subscript, ast.Constant)):
+                dflt = v.args[1] if len(v.args) == 2 else ast.Constant(value=None)
+                if isinstance(dflt, (ast.Constant, ast.Name, ast.Attribute)):
+                    return d, v.args[0], dflt, True
+        return None
+
     def visit_Assign(self, st):
+        if len(st.targets) == 1 and isinstance(st.targets[0], ast.Name):
+            got = self._lookup(st.value)
+            if got is not None:
+                # h = TABLE[key]  ->  if key == c1: h = f1 elif ..: else: h = TABLE[key]   (the call through h is split by definition later)
+                d, key, dflt, has_default = got
+                mk = lambda val: ast.copy_location(ast.Assign(targets=copy.deepcopy(st.targets), value=val, lineno=st.lineno), st)
+                tail: List[ast.stmt] = [mk(copy.deepcopy(dflt))] if has_default else [st]
+                chain = None
+                for k, v in reversed(list(zip(d.keys, d.values))):
+                    test = ast.Compare(left=copy.deepcopy(key), ops=[ast.Eq()], comparators=[copy.deepcopy(k)])
+                    chain = ast.If(test=test, body=[mk(copy.deepcopy(v))], orelse=tail if chain is None else [chain])
+                for x in ast.walk(chain):
+                    if isinstance(x, (ast.expr, ast.stmt)) and not hasattr(x, "lineno"):
+                        ast.copy_location(x, st)
+                ast.copy_location(chain, st)
+                return ast.fix_missing_locations(chain)
         return self._rewrite(st, st.value, lambda c: ast.copy_location(ast.Assign(targets=copy.deepcopy(st.targets), value=c, lineno=st.lineno), st))
 
     def visit_Return(self, st):
